@@ -52,8 +52,12 @@ type TxPlan struct {
 	Arg  string   `json:"arg,omitempty"`
 	Args []string `json:"args,omitempty"`
 	N    int      `json:"n,omitempty"`
+	// Early: the call is issued without waiting for the reload lock to be free (it then queues inside the library,
+	// behind a restore that is pending or in progress)
+	Early bool `json:"early,omitempty"`
 	// Ctx: the context handed to Db.Update / Db.Batch. "" a fresh ordinary context, "nil" no context at all (the
-	// library makes one), "sys" a system context (every operation of the transaction then runs as system)
+	// library makes one), "cancel" an ordinary context whose context.Context is cancelled before the function returns,
+	// "sys" a system context (every operation of the transaction then runs as system)
 	Ctx string `json:"ctx,omitempty"`
 }
 
@@ -80,8 +84,8 @@ type Plan struct {
 	// Schema: order-only variations of the store wiring (the behaviour every property prescribes is the same):
 	// bit 0 the extended child store registers its strategy before the plain one, bit 1 the system-entity constraint
 	// of people is added before its indexes, bit 2 the base path of the stores is a slice with spare capacity
-	Schema int `json:"schema,omitempty"`
-	Note      string       `json:"note,omitempty"`
+	Schema int    `json:"schema,omitempty"`
+	Note   string `json:"note,omitempty"`
 	// filled in when a violation is written out
 	Violation *Violation `json:"violation,omitempty"`
 }
@@ -305,6 +309,16 @@ func (g *gen) personFields(op *Op, exclude string) {
 	case 2:
 		if g.r.IntN(2) == 0 {
 			op.Tags = map[string]any{"tka": pick(g.r, []string{"tv", "tw"}), "tkb": g.r.IntN(2) == 0}
+		}
+	case 3:
+		switch g.r.IntN(6) {
+		case 0:
+			op.Tags = map[string]any{"tkc": 2.5, "tka": "tv"} // a float value
+		case 1:
+			if !g.valid() {
+				// an unusable value in the middle of the map: the write fails after some keys were stored
+				op.Tags = map[string]any{"tka": "tv", "tkd": map[string]any{"x": "y"}, "tkz": "zz"}
+			}
 		}
 	}
 	ng := g.r.IntN(3)
@@ -667,9 +681,11 @@ func (g *gen) genOp() Op {
 	case "preCommit":
 		op.K = "preCommit"
 		op.Fail = g.r.IntN(3) == 0
+		op.Sys = g.r.IntN(3) == 0
 	case "commitAction":
 		op.K = "commitAction"
 		op.TxCtx = g.r.IntN(4) == 0
+		op.Sys = !op.TxCtx && g.r.IntN(3) == 0
 	case "updateCtx":
 		op.K = "updateCtx"
 	case "listen":
@@ -679,6 +695,9 @@ func (g *gen) genOp() Op {
 		op.N = g.r.IntN(3)
 	default:
 		panic("gen: unknown kind " + kind)
+	}
+	if (op.K == "create" || op.K == "update" || op.K == "delete") && !g.valid() && g.r.IntN(12) == 0 {
+		op.Id = "" // a blank id: refused by every store operation
 	}
 	return op
 }
@@ -1002,6 +1021,8 @@ func (g *gen) genTx() TxPlan {
 		tx.Ctx = "nil"
 	case 1, 2:
 		tx.Ctx = "sys"
+	case 3:
+		tx.Ctx = "cancel"
 	}
 	n := 1 + g.r.IntN(g.cfg.MaxOps)
 	// the shadow only guides argument choice; it assumes sequential execution of the plan as generated
@@ -1261,6 +1282,26 @@ func genConcurrent(profile, prop string, seed uint64, r *rand.Rand) *Plan {
 				tt.Txs = append(tt.Txs, TxPlan{Mode: "timeline", Arg: pick(r, []string{"default", "default", "initIfEmpty", "forceReset"})})
 			}
 			p.Tasks = append(p.Tasks, tt)
+		}
+		if r.IntN(4) == 0 {
+			// a second client restoring earlier snapshots on its own: two restores may be in flight at once (one
+			// writing its temp file or waiting for the lock while the other swaps the database)
+			t2 := TaskPlan{Name: "S2"}
+			n := 1 + r.IntN(3)
+			for i := 0; i < n; i++ {
+				t2.Txs = append(t2.Txs, TxPlan{Mode: "idle", N: 1 + r.IntN(10)})
+				t2.Txs = append(t2.Txs, TxPlan{Mode: "restore", Arg: pick(r, []string{"bytes", "reader", "reader"}), N: r.IntN(4)})
+			}
+			p.Tasks = append(p.Tasks, t2)
+		}
+	}
+	if profile == "snap" {
+		for ti := range p.Tasks {
+			for xi := range p.Tasks[ti].Txs {
+				if tx := &p.Tasks[ti].Txs[xi]; (tx.Mode == "view" || tx.Mode == "update" || tx.Mode == "batch") && r.IntN(3) == 0 {
+					tx.Early = true
+				}
+			}
 		}
 	}
 	p.MaxSteps = 120 + 16*p.NumOps()
